@@ -322,7 +322,13 @@ def run_case(case):
     for idx, ((k1, r1), (k2, r2)) in enumerate(zip(t1, t2)):
         if r1[0] == 'return' and violates(r1[1]):
             if not (r2[0] == 'raise' and r2[1] == 'BeartypeCallHintReturnViolation'):
-                fails.append({'sig': 'violating-return-accepted', 'detail': '%s\nops=%r plain=%r decorated=%r' % (src, case['ops'], t1, t2)})
+                op = case['ops'][idx]
+                if op[0] == 'throw' and op[1] == 'GeneratorExit' and r2[0] == 'raise' and r2[1] == 'GeneratorExit':
+                    # not a question of the return check: the thrown GeneratorExit never reached the point of returning (listed finding)
+                    fails.append({'sig': 'trace-differs:%s:throw(GeneratorExit):return->raise:GeneratorExit' % kind,
+                                  'detail': '%s\nops=%r plain=%r decorated=%r' % (src, case['ops'], t1, t2)})
+                else:
+                    fails.append({'sig': 'violating-return-accepted', 'detail': '%s\nops=%r plain=%r decorated=%r' % (src, case['ops'], t1, t2)})
             break   # the two objects are in different states from here on
         if r1 != r2:
             diff = idx
